@@ -111,6 +111,10 @@ prop("C14", "A reset or pooled context behaves like a new one", [
 
 prop("C15", "A failing rule stops the decode and the failure is reported", [
     ("user_error_is_last_call", "user_error_is_last_call", "FULL STATEMENT (calls): for every program and fuel, with user functions that report their own call number, a decode that returns a user function's error made no call after the failing one -- no callback, getter, modifier or helper of any later rule, iteration or case"),
+    ("failure_is_never_swallowed", "failure_is_never_swallowed", "FULL STATEMENT (no swallow): every call is logged and the entry of a call that returned an error carries a mark; with user functions whose only errors are their own, a decode that returns anything but a user function's error -- nil, a signal, an internal error -- has no marked entry in its log: whenever a callback, getter, modifier or condition helper fails, however deeply buried, Decode returns a user function's error (by user_error_is_last_call that of the last call made, i.e. of the first that failed)"),
+    ("success_means_no_call_failed", "success_means_no_call_failed", "in particular a successful decode"),
+    ("every_rule_reports_failures", "follow_sound2", "the induction behind it, through every driver"),
+    ("harness_functions_are_strict", "testU_strict", "the hypothesis holds of the harness's user functions (whose Go twins write the same mark into the trace the correspondence compares)"),
     ("user_error_in_ctx_is_returned", "user_error_in_ctx_is_returned", "NO MASKING: whatever construct a failing call is buried in (loop, switch, block, modifier chain, helper guard), if ctx.Err holds a user function's error when a rule ends, the rule returns exactly that error"),
     ("decode_returns_user_error", "decode_returns_user_error", "and so does the decode"),
     ("helper_failure_fails_the_rule", "cond_helper_failure", "a condition helper that reports a failure through ctx.Err fails its rule with it"),
